@@ -1,6 +1,8 @@
 SPECIFICATION Spec
 CONSTANTS
   Level = 1
+  GuardEmpty = TRUE
 INVARIANT Refines
 INVARIANT ReadsInside
+INVARIANT PtrInside
 CHECK_DEADLOCK FALSE
